@@ -85,6 +85,16 @@ Theorem C11_judgement_transfer : forall c steps o, JudgeC11P.fresh_builtin c -> 
 Proof. exact JudgeC11P.C11_transfer_strong. Qed.
 
 
+(* ---- app stage: the executable judgement of coq/Check is sound for the model on every scenario of the profile, and transfers
+   to every trace that agrees with the model's run ---- *)
+From BEI Require Check.C11a Proofs.JudgeC11AppP.
+Theorem C11_app_judgement_sound : forall sc, JudgeC11AppP.profile_C11b sc = true -> C11a.ok_a (sc, App.trace (App.run sc)) = 0%Z.
+Proof. exact JudgeC11AppP.C11_app_judgement_sound. Qed.
+
+Theorem C11_app_judgement_transfer : forall sc t, JudgeC11AppP.profile_C11b sc = true -> App.agree_full (sc, t) = true -> C11a.ok_a (sc, t) = 0%Z.
+Proof. exact JudgeC11AppP.C11_app_judgement_transfer. Qed.
+
+
 Print Assumptions C11_actuation.
 Print Assumptions C11_press.
 Print Assumptions C11_just_press.
@@ -102,3 +112,5 @@ Print Assumptions C11_tick_nonneg.
 Print Assumptions C11_timer_advances_by_tick.
 Print Assumptions C11_judgement_sound.
 Print Assumptions C11_judgement_transfer.
+Print Assumptions C11_app_judgement_sound.
+Print Assumptions C11_app_judgement_transfer.
